@@ -756,6 +756,14 @@ def response_diffs(mres, obs):
 
 # ------------------------------------------------------------------ one app over time (sessions)
 
+def run_sessions(ctx, model, falcon, testing, seeds_asgi):
+    sessions = [run_session(ctx, model, falcon, testing, seed, asgi) for seed, asgi in seeds_asgi]
+    for i in range(0, len(sessions), 5000):
+        part = sessions[i:i + 5000]
+        for sess, m in zip(part, model.run_many([x['wire'] for x in part])):
+            judge_session(ctx, sess, m)
+
+
 def run_session(ctx, model, falcon, testing, seed, asgi):
     """add_error_handler calls interleaved with requests on ONE app instance"""
     import random
@@ -826,7 +834,11 @@ def run_session(ctx, model, falcon, testing, seed, asgi):
             ops.append((ex, list(ran), obs))
             log.append(['raise', type(ex).__name__, [k.__name__ for k in type(ex).__mro__], 'ran', list(ran),
                         obs.get('status'), obs['escaped']])
-    m = model.run([3, [], wire_ops])
+    return {'seed': seed, 'asgi': asgi, 'wire': [3, [], wire_ops], 'ops': ops, 'log': log}
+
+
+def judge_session(ctx, sess, m):
+    seed, asgi, ops, log = sess['seed'], sess['asgi'], sess['ops'], sess['log']
     ctx.count('session')
     ctx.note_case(('session', seed, asgi), bool(ops))
     bad = []
@@ -954,7 +966,22 @@ def run_error_sequence(ctx, model, falcon, testing, seed):
         steps.append({'error': kind, 'arg': arg, 'headers_arg': user_headers, 'asgi': bool(asgi),
                       'app': 0 if app is apps[0][1] else 1, 'accept': accept,
                       'impl': {k: (v.decode('latin-1') if isinstance(v, bytes) else v) for k, v in obs.items()}})
-    outs = model.run_many(cases)
+    return {'seed': seed, 'cases': cases, 'steps': steps}
+
+
+def run_error_sequences(ctx, model, falcon, testing, seeds):
+    seqs = [run_error_sequence(ctx, model, falcon, testing, seed) for seed in seeds]
+    flat = [c for q in seqs for c in q['cases']]
+    outs = model.run_many(flat)
+    pos = 0
+    for q in seqs:
+        n = len(q['cases'])
+        judge_error_sequence(ctx, q, outs[pos:pos + n])
+        pos += n
+
+
+def judge_error_sequence(ctx, q, outs):
+    seed, steps = q['seed'], q['steps']
     ctx.count('error-sequence')
     ctx.note_case(('errseq', seed), True)
     for k, (st, m) in enumerate(zip(steps, outs)):
@@ -1044,10 +1071,10 @@ def main(ctx):
         ctx.sample({'scenario': describe(falcon, sc), 'asgi': asgi,
                     'impl': {k: (v.decode('latin-1') if isinstance(v, bytes) else v) for k, v in obs.items()}})
     registry_cases(ctx, model, falcon, 3000 if quick else 40000)
-    for _ in range(1200 if quick else 15000):
-        run_session(ctx, model, falcon, testing, ctx.rng.getrandbits(40), ctx.rng.random() < 0.5)
-    for _ in range(800 if quick else 10000):
-        run_error_sequence(ctx, model, falcon, testing, ctx.rng.getrandbits(40))
+    run_sessions(ctx, model, falcon, testing,
+                 [(ctx.rng.getrandbits(40), ctx.rng.random() < 0.5) for _ in range(1500 if quick else 6000)])
+    run_error_sequences(ctx, model, falcon, testing,
+                        [ctx.rng.getrandbits(40) for _ in range(1000 if quick else 4000)])
     ctx.assumptions += [
         'oracle inputs taken from the live objects: req.client_prefers(predefined + media handlers) and '
         'media_handlers._resolve(type) (content negotiation itself is C11)',
@@ -1065,11 +1092,11 @@ def replay(ctx, obj):
         ctx.note_case('replay-' + repr(sorted(obj.items())), True)
         return
     if 'session_seed' in obj:
-        run_session(ctx, model, falcon, testing, obj['session_seed'], bool(obj.get('asgi')))
+        run_sessions(ctx, model, falcon, testing, [(obj['session_seed'], bool(obj.get('asgi')))])
         ctx.note_case('replay-session', True)
         return
     if 'sequence_seed' in obj:
-        run_error_sequence(ctx, model, falcon, testing, obj['sequence_seed'])
+        run_error_sequences(ctx, model, falcon, testing, [obj['sequence_seed']])
         ctx.note_case('replay-seq', True)
         return
     if 'scenario_seed' not in obj or not isinstance(obj['scenario_seed'], int):
